@@ -296,9 +296,40 @@ def coerce(v, ty):
             return VList(ty.elem, v.n, z3.K(z3.IntSort(), pack(fresh_default(ty.elem))))
     if isinstance(ty, TRec) and isinstance(v, VRec) and v.ty.rname == ty.rname:
         return v
+    if isinstance(ty, (TDict, TSet)) and getattr(v, "empty_literal", False):
+        return zero_value(ty)
+    if isinstance(ty, TSet) and isinstance(v, VSet) and v.kty == ty.key:
+        return v
     if isinstance(ty, TDict) and isinstance(v, VDict) and v.kty == ty.key and v.vty == ty.val:
         return VDict(ty, v.m, v.a, v.c)
     raise Unsupported("cannot coerce %s to %s" % (v.ty, ty))
+
+
+def zero_value(ty):
+    """the empty / zero inhabitant: {} , set(), [], 0, 0.0, "", False; records field-wise"""
+    if ty == INT:
+        return VInt(0)
+    if ty == REAL:
+        return VReal(0)
+    if ty == BOOL:
+        return VBool(False)
+    if ty == STR:
+        return VStr("")
+    if ty == NONE:
+        return VNone()
+    if isinstance(ty, TList):
+        return VList(ty.elem, 0, z3.K(z3.IntSort(), pack(fresh_default(ty.elem))))
+    if isinstance(ty, TSet):
+        return VSet(ty.key, z3.K(sort_of(ty.key), z3.BoolVal(False)), z3.IntVal(0))
+    if isinstance(ty, TDict):
+        return VDict(ty, z3.K(sort_of(ty.key), z3.BoolVal(False)), z3.K(sort_of(ty.key), pack(fresh_default(ty.val))), z3.IntVal(0))
+    if isinstance(ty, TOpt):
+        return VOpt(ty.inner, z3.BoolVal(True), fresh_default(ty.inner))
+    if isinstance(ty, TTuple):
+        return VTuple([zero_value(t) for t in ty.items])
+    if isinstance(ty, TRec):
+        return VRec(ty, {n: zero_value(t) for n, t in ty.fields.items()})
+    raise Unsupported("no zero value for %s" % ty)
 
 
 def fresh_default(ty):
